@@ -89,30 +89,37 @@ def run(module, cfg_lines, scratch, *, workers=4, timeout=600, simulate=None, de
     e.pop('JAVA_TOOL_OPTIONS', None)
     if env:
         e.update({k: str(v) for k, v in env.items()})
-    res = TlcResult()
-    res.cmd = ' '.join(cmd)
-    t0 = time.time()
-    try:
-        p = subprocess.run(cmd, cwd=SPEC_DIR, env=e, stdout=subprocess.PIPE, stderr=subprocess.STDOUT,
-                           timeout=timeout, text=True, errors='replace')
-    except subprocess.TimeoutExpired as ex:
+    last = None
+    for attempt in range(2):      # one retry for transient JVM failures (never for verdicts)
+        res = TlcResult()
+        res.cmd = ' '.join(cmd)
+        t0 = time.time()
+        try:
+            p = subprocess.run(cmd, cwd=SPEC_DIR, env=e, stdout=subprocess.PIPE, stderr=subprocess.STDOUT,
+                               timeout=timeout, text=True, errors='replace')
+        except subprocess.TimeoutExpired as ex:
+            shutil.rmtree(meta, ignore_errors=True)
+            raise TlcError(f'TLC timeout after {timeout}s: {module}') from ex
+        finally:
+            res.wall = time.time() - t0
         shutil.rmtree(meta, ignore_errors=True)
-        raise TlcError(f'TLC timeout after {timeout}s: {module}') from ex
-    finally:
-        res.wall = time.time() - t0
-    shutil.rmtree(meta, ignore_errors=True)
-    out = p.stdout
-    res.stdout = out
-    _parse(out, res)
-    if 'No error has been found' in out or (simulate and 'Finished in' in out and 'Error:' not in out):
-        res.ok = True
-        return res
-    if res.violated is not None:
-        if allow_violation:
+        out = p.stdout
+        res.stdout = out
+        _parse(out, res)
+        if 'No error has been found' in out or (simulate and 'Finished in' in out and 'Error:' not in out):
+            res.ok = True
             return res
-        return res
-    tail = '\n'.join(out.splitlines()[-40:])
-    raise TlcError(f'TLC failed on {module} (exit {p.returncode}):\n{tail}')
+        if res.violated is not None:
+            return res
+        errs = [l for l in out.splitlines() if 'rror' in l or 'xception' in l][:12]
+        last = f'TLC failed on {module} (exit {p.returncode}):\n' + '\n'.join(errs) + '\n...\n' + \
+               '\n'.join(l for l in out.splitlines()[-12:] if not l.startswith('"'))
+        try:
+            with open(os.path.join(scratch, f'{tag}.fail{attempt}.out'), 'w') as f:
+                f.write(out)
+        except OSError:
+            pass
+    raise TlcError(last)
 
 
 def _parse(out, res):
